@@ -88,6 +88,15 @@ func buildAttr(n attrNode) slog.Attr {
 // mkGroup builds a group through one of the constructors the API offers; which one depends on
 // the group's shape only (a group is a group however it was made).
 func mkGroup(key string, members []slog.Attr) slog.Attr {
+	if len(members) == 0 {
+		// an empty group: a nil member list as often as an empty one
+		switch len(key) % 4 {
+		case 0:
+			return slog.NewGroupedAttr(key)
+		case 1:
+			return slog.NewAttr(key, slog.Attrs(nil))
+		}
+	}
 	switch (len(key) + len(members)) % 4 {
 	case 1:
 		return slog.NewAttr(key, slog.Attrs(members)) // what a "key", Attrs{...} pair in an argument list becomes
@@ -139,7 +148,15 @@ type recCase struct {
 }
 
 // loggerName returns the name a Named case gives its logger.
+// recAnonName is the name the library gave the anonymous child of the last emitRecord call.
+var recAnonName string
+
+const recAnonChild = "<anonymous child of a named logger>"
+
 func (rc recCase) loggerName() string {
+	if rc.NameQ == recAnonChild {
+		return recAnonName
+	}
 	if rc.NameQ != "" {
 		if s, err := strconv.Unquote(rc.NameQ); err == nil {
 			return s
@@ -186,7 +203,12 @@ func emitRecord(rc recCase) (payloads []string, pan string) {
 		w = &reentW{plainW{"w", rec}}
 	}
 	var l slog.Logger
-	if rc.Named {
+	if rc.Named && rc.NameQ == recAnonChild {
+		// an anonymous child: the library picks its name; the record must carry the name the child reports
+		ch := slog.New("anon-parent").New()
+		recAnonName = ch.Name()
+		l = ch
+	} else if rc.Named {
 		l = slog.New(rc.loggerName())
 	} else {
 		l = slog.New()
